@@ -6,7 +6,17 @@ use vstd::prelude::*;
 use vstd::std_specs::iter::IteratorSpec;
 use std::alloc::Allocator;
 use std::collections::VecDeque;
+mod axioms {
+use vstd::prelude::*;
 verus! {
+// ---- trusted: a Rust slice never has more than usize::MAX elements (its length is a usize) ----
+#[verifier::external_body]
+pub broadcast proof fn axiom_slice_len_bound<T>(s: &[T])
+    ensures #[trigger] s@.len() <= usize::MAX {}
+}
+}
+verus! {
+broadcast use axioms::axiom_slice_len_bound;
 '''
 FOOTER = '''
 } // verus!
@@ -60,8 +70,8 @@ SPAN_FILE = 'harper-core/src/span.rs'
 
 
 def add_span(U, fns, props=('C01',)):
-    U.item(SPAN_FILE, 'struct Span')
-    U.raw(SPAN_VOCAB)
+    U.item(SPAN_FILE, 'struct Span', derive=('Debug', 'Clone', 'Copy', 'PartialEq', 'Eq'))
+    U.raw(SPAN_VOCAB + (CHARSTRING_STUB if 'get_content' in fns else ''), name='stubs:span')
     sel = {}
     for f in fns:
         spec = dict(SPAN_FNS[f])
@@ -90,3 +100,97 @@ pub broadcast proof fn ext_seq_vec_ref<'a, T>(v: &'a Vec<T>)
 pub broadcast proof fn ext_seq_skip<T>(v: core::iter::Skip<std::vec::IntoIter<T>>)
     ensures #[trigger] ext_seq(v) == v.remaining() {}
 '''
+
+
+# ---- tokens ---------------------------------------------------------------------------------
+# Types whose definitions are irrelevant to the proved clauses are opaque. TokenKind, Token,
+# Punctuation, Quote are copied verbatim from /repo.
+OPAQUE_TYPES = '''
+// ---- opaque stand-ins for data types that play no role in any proved clause ----
+#[verifier::external_body] pub struct WordMetadata { _p: u8 }
+#[verifier::external_body] pub struct Currency { _p: u8 }
+'''
+OPAQUE_NUMBER = '''
+#[verifier::external_body] pub struct Number { _p: u8 }
+'''
+
+TOKEN_VOCAB = '''
+pub open spec fn toks_in(t: Seq<Token>, n: int) -> bool {
+    forall|i: int| 0 <= i < t.len() ==> span_in(#[trigger] t[i].span, n)
+}
+pub open spec fn ordered(t: Seq<Token>) -> bool {
+    forall|i: int, j: int| 0 <= i < j < t.len() ==> #[trigger] t[i].span.end <= #[trigger] t[j].span.start
+}
+pub proof fn lemma_toks_in_sub(t: Seq<Token>, n: int, a: int, b: int)
+    requires toks_in(t, n), 0 <= a <= b <= t.len(),
+    ensures toks_in(t.subrange(a, b), n),
+{
+    assert forall|i: int| 0 <= i < b - a implies span_in(#[trigger] t.subrange(a, b)[i].span, n) by {
+        assert(t.subrange(a, b)[i] == t[a + i]);
+    }
+}
+'''
+
+
+def kind_pred_stubs(names):
+    """derive(Is)/hand-written TokenKind predicates that the unit calls but does not reason about:
+    declared external_body with NO postcondition (an arbitrary total bool function)."""
+    body = ''.join(f'    #[verifier::external_body] pub fn is_{n}(&self) -> bool {{ unimplemented!() }}\n' for n in names)
+    return 'impl TokenKind {\n' + body + '}\n'
+
+
+def add_tokens(U, number_opaque=True, derive=()):
+    U.raw(OPAQUE_TYPES + (OPAQUE_NUMBER if number_opaque else ''), name='opaque-types')
+    U.item('harper-core/src/punctuation.rs', 'struct Quote', derive=derive)
+    U.item('harper-core/src/punctuation.rs', 'enum Punctuation', derive=derive)
+    U.item('harper-core/src/token_kind.rs', 'enum TokenKind', derive=derive)
+    U.item('harper-core/src/token.rs', 'struct Token', derive=derive)
+    U.raw(TOKEN_VOCAB, name='lemmas:tokens')
+
+# `Span::get_content` formats its panic message with CharStringExt::to_string; the branch is proved
+# unreachable, the stub only has to type-check.
+CHARSTRING_STUB = '''
+pub trait CharStringExt { fn to_string(&self) -> String; fn to_lower(&self) -> Vec<char>; }
+impl CharStringExt for [char] {
+    #[verifier::external_body] fn to_string(&self) -> String { unimplemented!() }
+    #[verifier::external_body] fn to_lower(&self) -> Vec<char> { unimplemented!() }
+}
+'''
+
+
+# ---- VecExt::remove_indices under contract -----------------------------------------------------
+# Verus forbids `requires` on an impl method, so the contract sits on the trait through two spec
+# members that the Vec<T> impl defines. The body (Vec::retain with a stateful closure) is outside
+# Verus; its contract is ASSUMED here and checked by the exhaustive bounded contract run
+# (rac:remove_indices) of the C13/C02 checks.
+VECEXT_VOCAB = '''
+pub open spec fn incr(s: Seq<usize>) -> bool { forall|a: int, b: int| 0 <= a < b < s.len() ==> s[a] < s[b] }
+pub open spec fn incr_int(s: Seq<int>) -> bool { forall|a: int, b: int| 0 <= a < b < s.len() ==> s[a] < s[b] }
+
+/// `r` is `s` with exactly the positions in `idx` deleted (order and values preserved).
+pub open spec fn removed<T>(s: Seq<T>, idx: Seq<usize>, r: Seq<T>) -> bool {
+    exists|kept: Seq<int>| #![auto] incr_int(kept) && kept.len() == r.len()
+        && (forall|k: int| 0 <= k < kept.len() ==> 0 <= kept[k] < s.len() && !idx.contains(kept[k] as usize) && r[k] == s[kept[k]])
+        && (forall|i: int| 0 <= i < s.len() && !idx.contains(i as usize) ==> kept.contains(i))
+}
+'''
+VECEXT_TRAIT_MEMBERS = '''
+    spec fn ri_pre(&self, idx: Seq<usize>) -> bool;
+    spec fn ri_post(old_self: &Self, idx: Seq<usize>, new_self: &Self) -> bool;
+'''
+VECEXT_IMPL_MEMBERS = '''
+    open spec fn ri_pre(&self, idx: Seq<usize>) -> bool { incr(idx) && forall|k: int| 0 <= k < idx.len() ==> idx[k] < self@.len() }
+    open spec fn ri_post(old_self: &Self, idx: Seq<usize>, new_self: &Self) -> bool { removed(old_self@, idx, new_self@) }
+'''
+REMOVE_INDICES = dict(requires=['old(self).ri_pre(to_remove@)'], ensures=['Self::ri_post(old(self), to_remove@, final(self))'])
+
+
+def add_vecext(U, props):
+    U.raw(VECEXT_VOCAB, name='spec:removed')
+    U.trait('harper-core/src/vec_ext.rs', 'trait VecExt', {'remove_indices': dict(REMOVE_INDICES)},
+            extra_members=VECEXT_TRAIT_MEMBERS, supertrait=': Sized')
+    U.impl('harper-core/src/vec_ext.rs', 'impl<T> VecExt for Vec<T>',
+           {'remove_indices': dict(external_body=True, props=list(props),
+                                   assumed='removed(old(self)@, to_remove@, final(self)@) given strictly increasing in-range indices',
+                                   note='body = Vec::retain with a stateful closure: rejected by Verus, CBMC out of memory; checked by bounded-rac only')},
+           extra_members=VECEXT_IMPL_MEMBERS)
